@@ -12,12 +12,12 @@ def canon(alias, place):
     return tuple(place)
 
 
-def run(body, oracle, max_steps=400):
+def run(body, oracle, max_steps=400, call_oracle=None, start=0):
     """oracle(canonical place tuple, variants dict value->name) -> discriminant value (int) or None if unknown.
     returns (result, trace) where result = ('ret', consts dict local->const string) | ('unreachable',) | ('unknown', why)"""
     alias = {}
     vals = {}      # local -> int (discriminant / const) or const string
-    bb = 0
+    bb = start
     trace = []
     for _ in range(max_steps):
         trace.append(bb)
@@ -65,6 +65,10 @@ def run(body, oracle, max_steps=400):
                 if f and t["a"]:
                     p = op_place(t["a"][0])
                     alias[d] = ("call:" + f["name"],) + tuple(canon(alias, a_) if (a_ := op_place(x)) is not None else ("const",) for x in t["a"][1:2]) if False else ("call:" + f["name"], tuple(canon(alias, op_place(x)) if op_place(x) is not None else ("const",) for x in t["a"]))
+            if call_oracle is not None and isinstance(d, int) and t.get("f"):
+                cv = call_oracle(t["f"]["name"], t)
+                if cv is not None:
+                    vals[d] = cv
             if t.get("t") is None:
                 return ("diverges",), trace
             bb = t["t"]
